@@ -83,6 +83,74 @@ pub fn stop_points(spec: &RootSpec, d: u8, warm: bool, only_n: Option<u64>, acc:
     }
 }
 
+/// The same property at the interface: "a thinking time too short to finish depth 1" and "`go` immediately followed by
+/// `stop`" as a GUI produces them. Every family root x every `go` line of a list of starved time controls (move times
+/// and clocks whose budget works out to 0 or 1 ms, with and without increments, either colour's clock alone, partial
+/// lists) goes through the real command loop with its real timer thread (`go ..; wait`), and every unlimited or deep
+/// search is stopped at once (`go ..; stop`). Whatever the timing, the one `bestmove` must name a legal move (none
+/// only without legal moves): the verdict does not depend on how far the search got.
+pub fn uci_starved(acc: &mut Acc) -> SpaceReport {
+    use crate::props::c12::uci_seq;
+    let t0 = std::time::Instant::now();
+    let mut roots: Vec<String> = e3::family_roots().iter().map(|x| x.1.to_string()).collect();
+    roots.push(e3::SINGLE_MOVE.into());
+    roots.push(e3::MATED.into());
+    roots.push(e3::STALEMATED.into());
+    roots.push(e3::OTHER_GAME.into());
+    let timed = [
+        "go movetime 0", "go movetime 1", "go movetime 5", "go movetime 6", "go wtime 0 btime 0", "go wtime 1 btime 1", "go wtime 150 btime 150", "go wtime 1000 btime 1000 winc 0 binc 0",
+        "go wtime 5000 btime 5000", "go wtime 7500 btime 7500", "go wtime 7750 btime 7750", "go wtime 2500 btime 2500 winc 100 binc 100", "go wtime 100 btime 100 winc 5000 binc 5000",
+        "go wtime 5000", "go btime 5000", "go wtime 5000 btime 5000 movestogo 1", "go wtime 5000 btime 5000 movestogo 40", "go wtime 60000 btime 60000 winc 1000 binc 1000 depth 1", "go movetime 0 depth 3",
+    ];
+    let stopped = ["go infinite", "go depth 64", "go", "go movetime 3600000", "go wtime 3600000 btime 3600000"];
+    let mut cases: Vec<(String, String, &str)> = vec![];
+    for r in &roots {
+        for g in timed {
+            cases.push((r.clone(), g.to_string(), "wait"));
+        }
+        for g in stopped {
+            cases.push((r.clone(), g.to_string(), "stop"));
+        }
+    }
+    let a = par_items(&cases, &|_, (root, go, end), acc| {
+        let Ok(parsed) = parse_fen_strict(root) else { return };
+        let pos = parsed.pos.normalised();
+        let legal = pos.legal_uci_sorted();
+        // a `go` that names only the other side's clock sets no budget: nothing would end it, so it is stopped instead
+        let own_clock = if pos.white { go.contains("wtime") } else { go.contains("btime") };
+        let end = if *end == "wait" && !own_clock && !go.contains("movetime") && !go.contains("depth") { "stop" } else { *end };
+        acc.states += 1;
+        acc.evaluations += 1;
+        let text = format!("position fen {} ; {} ; {}", root, go, end);
+        let replay = json::obj(vec![("kind", json::s("c07-uci")), ("fen", json::s(root.clone())), ("go", json::s(go.clone())), ("end", json::s(end))]);
+        match uci_seq(vec![format!("position fen {}", root), go.clone(), end.to_string()]) {
+            Err(e) => acc.violation(format!("c07-uci-died|{}", text), format!("session died: {} [{}]", e, text), replay),
+            Ok(t) => {
+                acc.transitions += 1;
+                let best: Vec<&String> = t.iter().filter(|l| l.starts_with("bestmove")).collect();
+                if best.len() != 1 {
+                    acc.violation(format!("c07-uci-count|{}", text), format!("{} bestmove lines [{}]", best.len(), text), replay);
+                    return;
+                }
+                let m = best[0].split_whitespace().nth(1).unwrap_or("");
+                if legal.is_empty() {
+                    acc.outcome("interface: no move, none exists");
+                } else if m == "none" || m.is_empty() {
+                    acc.outcome("interface: no move although legal moves exist");
+                    acc.violation(format!("c07-uci-none|{}", text), format!("`{}` was answered with `{}` although {} has {} legal moves [{}]", go, best[0], pos.fen4(false), legal.len(), text), replay);
+                } else if !legal.iter().any(|x| x == m) {
+                    acc.violation(format!("c07-uci-illegal|{}", text), format!("`{}` was answered with the illegal move {} [{}]", go, m, text), replay);
+                } else {
+                    acc.outcome("interface: legal move");
+                }
+            }
+        }
+    });
+    let n = a.states;
+    acc.merge(a);
+    SpaceReport { name: format!("interface: {} roots x {} starved time controls (go ..; wait) and {} searches stopped at once (go ..; stop), real command loop and timer thread", roots.len(), timed.len(), stopped.len()), states: n, exhaustive: true, note: format!("[{:.1}s]", t0.elapsed().as_secs_f64()) }
+}
+
 pub fn run(tier: &str, seed: i64) -> Outcome {
     let q = tier == "quick";
     let off = seed.unsigned_abs();
@@ -109,6 +177,14 @@ pub fn run(tier: &str, seed: i64) -> Outcome {
                 cases.push((spec.clone(), d, false));
             }
             cases.push((spec.clone(), 2, true));
+        }
+    }
+    // move counters of the FEN and long reversible histories (the fifty-move boundary by text and by play)
+    for spec in e3::counter_roots() {
+        let keep = spec.history.is_empty() && (spec.fen.ends_with(" 99 80") || spec.fen.ends_with(" 100 80") || spec.fen.ends_with(" 150 200")) || [99usize, 100, 101, 200].contains(&spec.history.len());
+        if keep {
+            cases.push((spec.clone(), 1, false));
+            cases.push((spec.clone(), 2, false));
         }
     }
     // small positions and positions near the middlegame roots
@@ -166,6 +242,8 @@ pub fn run(tier: &str, seed: i64) -> Outcome {
         reports.push(SpaceReport { name: format!("fallback path (stop at poll 0, depth 1): {}", r.name), states: r.states, exhaustive: true, note: r.note });
     }
     let _ = (t1, fb_states);
+    let r = uci_starved(&mut acc);
+    reports.push(r);
     let mut out = Outcome::new(acc, reports, "for every (root, depth limit, fresh/warm table): the free run's poll count P is measured, then the search is re-run once for every N in 0..=P with the stop flag flipped inside the N-th node-entry poll (hook H2); each run must return a model-legal move when one exists, enter no further node after the flip, and leave the caller's game unchanged");
     out.traces_validated = out.acc.evaluations;
     out.assumptions = vec!["'promptly' is decided in virtual time: the number of node entries after the flip must be zero; wall-clock latency is not modelled".into(), "depth limits <= 3 (4 thorough); single stop per search (the flag never goes back up within one search)".into()];
@@ -173,6 +251,11 @@ pub fn run(tier: &str, seed: i64) -> Outcome {
 }
 
 pub fn replay(j: &J) -> Result<Acc, String> {
+    if j.get("kind").and_then(|x| x.as_str()) == Some("c07-uci") {
+        let mut acc = Acc::new();
+        let _ = uci_starved(&mut acc);
+        return Ok(acc);
+    }
     let spec = RootSpec::with(j.get("fen").and_then(|x| x.as_str()).ok_or("fen")?, j.get("history").and_then(|x| x.as_str()).unwrap_or(""));
     let d = j.get("depth").and_then(|x| x.as_i()).ok_or("depth")? as u8;
     let n = j.get("stop_at_poll").and_then(|x| x.as_i()).ok_or("stop_at_poll")? as u64;
